@@ -146,13 +146,20 @@ func describe(o outcome) string {
 	return lib.DumpValue(o.val) + " ; diagnostics: " + decgen.DiagText(o.diags)
 }
 
+// firstError names one error of the set, independently of the order hcldec happens to visit an ObjectSpec in.
 func firstError(d hcl.Diagnostics) string {
+	best := ""
 	for _, x := range d {
 		if x.Severity == hcl.DiagError {
-			return decgen.SummaryKey(x.Summary)
+			if k := decgen.SummaryKey(x.Summary); best == "" || k < best {
+				best = k
+			}
 		}
 	}
-	return "none"
+	if best == "" {
+		return "none"
+	}
+	return best
 }
 
 // labelCountUnambiguous: the configuration differs from a conforming one only in blocks given the wrong
@@ -501,7 +508,8 @@ func parseBoth(cx *lib.Ctx, c *c03case, native, js string, enc int) (hcl.Body, h
 
 func (c *c03case) after(den decgen.Denotation) string {
 	s := ""
-	if den.Flags["required-attr-under-default"] {
+	rud, _ := decgen.Triggers(c.spec)
+	if den.Flags["required-attr-under-default"] || rud {
 		s = "+after:required-attr-under-default"
 	}
 	return s
@@ -565,7 +573,14 @@ func (c *c03case) runAll(cx *lib.Ctx) {
 			// wrong label count (and nothing else): a violation in both
 			no, jo := decode(nb, spec, c.ctx, false), decode(jb, spec, c.ctx, false)
 			res.Count("check:wrong-label-count")
-			if no.panicked == nil && jo.panicked == nil && !(no.diags.HasErrors() && jo.diags.HasErrors()) {
+			if p := firstPanic(no, jo); p != nil && strings.HasPrefix(decgen.PanicKey(p), "inconsistent ") {
+				// cty refusing a collection of differently typed elements: the recorded C08 defects (an empty
+				// block collection typed differently from a non-empty one), reached on one side only because
+				// the two syntaxes legitimately keep different blocks here
+				res.Count("wrong-label-count:skipped(recorded C08 panic)")
+			} else if (no.panicked != nil) != (jo.panicked != nil) {
+				res.Fail(lib.Failure{Kind: "oracle", Key: "wrong-label-count:panic-on-one-side", Desc: "with a block given the wrong number of labels decoding panics for one syntax only", Input: in("wrong-label-count"), Impl: "native: " + describe(no) + "\njson: " + describe(jo)})
+			} else if no.panicked == nil && !(no.diags.HasErrors() && jo.diags.HasErrors()) {
 				res.Fail(lib.Failure{Kind: "oracle", Key: fmt.Sprintf("wrong-label-count:violation-on-one-side:native=%v,json=%v", no.diags.HasErrors(), jo.diags.HasErrors()), Desc: "a block with the wrong number of labels is a schema violation in one syntax only", Input: in("wrong-label-count"), Impl: "native: " + describe(no) + "\njson: " + describe(jo)})
 			}
 		default:
@@ -592,6 +607,13 @@ func (c *c03case) runAll(cx *lib.Ctx) {
 			}
 		}
 	}
+}
+
+func firstPanic(a, b outcome) interface{} {
+	if a.panicked != nil {
+		return a.panicked
+	}
+	return b.panicked
 }
 
 func errSuffix(o outcome) string {
@@ -627,7 +649,7 @@ func run(cx *lib.Ctx) {
 		return
 	}
 	root := cx.R.Fork()
-	n := cx.Scale(6000, 120000)
+	n := cx.Scale(14000, 250000)
 	for i := 0; i < n; i++ {
 		seed := root.U64()
 		depth := 2 + int(seed%3)
